@@ -49,6 +49,8 @@ class G(object):
         self.opts = opts
         self.nid = 0
         self.odd_ws = rng.random() < 0.5
+        self.special = rng.random() < 0.4        # NaN / INF / denormal / out-of-range tokens outside the float arrays too
+        self.comments = rng.random() < 0.3       # XML comments / processing instructions sprinkled in
         self.odd_names = rng.random() < 0.3     # names / symbols / texts with non-ASCII and escaped characters
         self.foreign = opts.get('foreign') if opts.get('foreign') is not None else rng.random() < 0.4
         self.prefix = ''
@@ -67,7 +69,15 @@ class G(object):
     def sep(self):
         if not self.odd_ws:
             return ' '
+        if self.comments and self.rng.random() < 0.02:
+            return ' <!-- %s --> ' % self.rng.choice(WORDS)       # a comment between two tokens
         return self.rng.choice([' ', ' ', ' ', '  ', '\n', '\t', ' \n ', '\r\n', '\n\t\t'])
+
+    def note(self, p=0.06):
+        """now and then a comment or a processing instruction between two elements"""
+        if self.comments and self.rng.random() < p:
+            return self.rng.choice(['<!-- %s -->', '<?verif %s?>', '\n<!--%s-->\n']) % self.rng.choice(WORDS)
+        return ''
 
     def join(self, toks):
         toks = list(toks)
@@ -87,6 +97,11 @@ class G(object):
         return str(x)
 
     def num(self, pos=False):
+        # every numeric text (transforms, light / camera / effect parameters, unit, bind_shape_matrix, ...) now and
+        # then holds a special value: they are read as float32(float(token)) like any other (NaN -> 0 is a
+        # normalisation of <float_array> data only)
+        if self.special and self.rng.random() < 0.04:
+            return self.rng.choice(NAN_TOKENS + INF_TOKENS + ['-0', '1e39', '-1e39', '1e-46', '-1e-45', '1e-40'])
         return self.rng.choice(POS_TOKENS if pos else NUM_TOKENS)
 
     def nums(self, n, nan=0.0, inf=0.0):
@@ -127,6 +142,10 @@ class G(object):
         if self.foreign and self.chance(0.7):
             inner = ('<f:data f:mark="%s" plain="1">%s</f:data><f:empty/>' % (esc(self.word()), esc(self.phrase())))
             tech = self.el('technique', [('profile', 'FOREIGN')], inner)
+            if not self.prefix and self.chance(0.3):
+                # the same thing with the foreign namespace as the default one of a subtree
+                tech = self.el('technique', [('profile', 'FOREIGN')],
+                               '<data xmlns="%s" mark="%s"><empty/></data>' % (FOREIGN_NS, esc(self.word())))
             return self.el('extra', [], tech, extra_decl=' xmlns:f="%s"' % FOREIGN_NS)
         return self.el('extra', [], self.el('technique', [('profile', 'OTHER')],
                                             self.el('param', [('name', 'k'), ('type', 'float')], self.num())))
@@ -320,6 +339,7 @@ def render_geometry(g, geom):
     vxml = g.el('vertices', [('id', v['id'])],
                 ''.join(g.el('input', [('semantic', sem), ('source', '#' + sid)]) for sem, sid in v['inputs']))
     parts.extend(srcxml)
+    parts.append(g.note())
     parts.append(vxml)
     for p in geom['prims']:
         ins = ''.join(g.el('input', g.rng.sample([('offset', str(o)), ('semantic', sem), ('source', '#' + ref),
@@ -331,7 +351,7 @@ def render_geometry(g, geom):
         for rowsv in p['ps']:
             body += g.el('p', [], None if rowsv is None else g.join([g.int_tok(x) for x in rowsv]))
         body += g.maybe_extra(0.08)
-        parts.append(g.el(p['tag'], [('material', p['material']), ('count', str(p['count_attr']))], body))
+        parts.append(g.note() + g.el(p['tag'], [('material', p['material']), ('count', str(p['count_attr']))], body))
     if g.chance(0.15):
         parts.append(g.extra())
     gextra = ''
@@ -657,6 +677,7 @@ def render_node(g, N):
     body = ''
     for it in N['items']:
         t = it['t']
+        body += g.note(0.03)
         if t == 'transform':
             body += g.el(it['kind'], [('sid', it['sid'])], g.join(it['tokens']))
         elif t == 'node':
@@ -794,7 +815,7 @@ def gen_document(rng, size=1, ns=NS_141, **opts):
             libs.append((g.el(name, [], ''.join(items[:cut]) + g.maybe_extra(0.1)), key, 0))
             libs.append((g.el(name, [], ''.join(items[cut:])), key, 1))
         elif items or g.chance(0.15):
-            libs.append((g.el(name, [], ''.join(items) + g.maybe_extra(0.1)), key, 0))
+            libs.append((g.note() + g.el(name, [], g.note().join(items) + g.maybe_extra(0.1)), key, 0))
     lib('library_images', [render_image(g, x) for x in D['images']], 'images')
     lib('library_effects', [render_effect(g, x) for x in D['effects']], 'effects')
     lib('library_materials', [g.el('material', [('id', m['id']), ('name', m['name'])],
